@@ -18,8 +18,8 @@ from txdbus import client as t_client, error as t_error
 
 PROPERTY = 'C08'
 LEVEL = 'exploration'
-QUICK_RUNS = 8000
-QUICK_BUDGET_S = 90
+QUICK_RUNS = 60000
+QUICK_BUDGET_S = 60
 THOROUGH_BUDGET_S = 900
 RULE = ('1-6 concurrent callRemote()s (with/without deadline, expectReply, declared return '
         'signature) against a scripted daemon that per call returns, errors, stays silent, '
